@@ -5,6 +5,8 @@
 //        backend  M  regular file through the constructor taking a name (mmap backend)
 //                 R  pipe fd whose read() results are dictated by <chunks> (read backend, deterministic short reads)
 //                 P  real pipe, a writer thread write()s the data in <chunks>-sized pieces (kernel decides the reads)
+//                 MF regular file (descriptor handed to FilePiece) on which every mmap() fails with ENODEV, as on file systems
+//                    that cannot be mapped: MMapShift's catch block -> TransitionToRead from offset 0; read() lengths by <chunks>
 //                 I  std::istream
 //                 ZM compressed bytes <comphex> in a regular file (mmap, magic detection, transition to read)
 //                 ZR compressed bytes through the chunk-dictated pipe
@@ -16,6 +18,7 @@
 //   answer: <total length> <hash of all bytes> <calls that returned 0 before the end> <nonzero after end>
 // The driver defines read(): calls made by the statically linked kenlm code on the designated fd are answered from
 // memory with the lengths of the chunk list (short reads without a shim); every other fd goes to the kernel.
+// It also defines mmap()/mmap64(): file mappings fail with ENODEV while g_fail_mmap is set (anonymous maps are untouched).
 #include "util/file_piece.hh"
 #include "util/file.hh"
 #include "util/read_compressed.hh"
@@ -34,6 +37,8 @@
 #include <unistd.h>
 #include <fcntl.h>
 #include <sys/syscall.h>
+#include <sys/mman.h>
+#include <cerrno>
 
 namespace {
 int g_fd = -1;
@@ -41,6 +46,15 @@ std::string g_data;
 size_t g_pos = 0;
 std::vector<size_t> g_chunks;
 size_t g_chunk_i = 0;
+}
+
+namespace { bool g_fail_mmap = false; }
+extern "C" void *mmap(void *addr, size_t len, int prot, int flags, int fd, off_t off) {
+  if (g_fail_mmap && fd >= 0) { errno = ENODEV; return MAP_FAILED; }
+  return (void *)syscall(SYS_mmap, addr, len, prot, flags, fd, off);
+}
+extern "C" void *mmap64(void *addr, size_t len, int prot, int flags, int fd, off_t off) {
+  return mmap(addr, len, prot, flags, fd, off);
 }
 
 extern "C" ssize_t read(int fd, void *buf, size_t count) {
@@ -180,6 +194,26 @@ void case_fp(std::istringstream &in, std::ostream &o) {
         unlink(name.c_str());
         run_ops(f, ops, o);
       }
+    } else if (backend == "PF") {
+      // a procfs file opened by name: "regular file" of size 0 whose zero-length mmap fails although read() delivers data;
+      // the name follows the ops field (the plaintext field is what the harness read from it just before)
+      std::string name;
+      in >> name;
+      util::FilePiece f(name.c_str(), NULL, min_buffer);
+      run_ops(f, ops, o);
+    } else if (backend == "MF") {
+      std::string name = write_temp(data);
+      int fd = open(name.c_str(), O_RDONLY);
+      unlink(name.c_str());
+      if (fd < 0) { perror("open"); exit(3); }
+      g_data = data; g_pos = 0; g_chunks = ch; g_chunk_i = 0; g_fd = fd;
+      g_fail_mmap = true;
+      try {
+        util::FilePiece f(fd, "c18-nommap", NULL, min_buffer);
+        run_ops(f, ops, o);
+      } catch (...) { g_fail_mmap = false; g_fd = -1; throw; }
+      g_fail_mmap = false;
+      g_fd = -1;
     } else if (backend == "R" || backend == "ZR") {
       int p[2];
       if (pipe(p)) { perror("pipe"); exit(3); }
